@@ -15,7 +15,7 @@ from .kernel import (EXIT_OK, EXIT_VIOLATION, EXIT_HARNESS, HarnessError, VERIF_
 
 TIERS = {
     # property: tier: (seeded runs, soft wall deadline s, exhaustive depth)
-    "C16": {"quick": (30000, 600, 2), "thorough": (2000000, 5400, 3)},
+    "C16": {"quick": (30000, 600, 2), "thorough": (1500000, 5400, 3)},
     "C18": {"quick": (6000, 600, 0), "thorough": (250000, 5400, 0)},
 }
 MAX_SHRINK_PER_KEY = 3
